@@ -143,7 +143,7 @@ static std::vector<std::string> hist_gen(const GenArgs &ga) {
     nops = 5 + (int)sw.below(thorough ? 56 : 36);
     maxlen = sw.chance(1, 4) ? 40 : 10;
     mix = {{"new", 14}, {"compile", 26}, {"take", 8}, {"run", 22}, {"runc", 12}, {"freep", 6}, {"freec", 5},
-           {"reset", 3}, {"policy", faults ? 4 : 0}};
+           {"reset", 3}, {"policy", faults ? 4 : 0}, {"append", 3}};
   } else if (P == "C09") {
     oracles = "res,layout,bytes,reuse,growth";
     faults = sw.chance(1, 5);
@@ -166,20 +166,20 @@ static std::vector<std::string> hist_gen(const GenArgs &ga) {
     nops = 8 + (int)sw.below(thorough ? 73 : 43);
     maxlen = 14;
     mix = {{"new", 14}, {"compile", 24}, {"take", 9}, {"run", 14}, {"runc", 9}, {"freep", 9}, {"freec", 7},
-           {"reset", 7}, {"debug", 2}};
+           {"reset", 7}, {"debug", 2}, {"append", 6}, {"rawalloc", sw.chance(1, 3) ? 8 : 0}};
   } else {  // C17
     oracles = "det";
     static const char *codes[] = {"-", "-", "-", "-", "debug"};
     orc_code = codes[sw.below(5)];
     debug_env = sw.chance(1, 3) ? (int)sw.below(6) : -1;
-    faults = false;
+    faults = sw.chance(1, 3);   // transient OS failures during *unrelated* compiles are history too
     bad_dir_pct = sw.chance(1, 4) ? 30 : 0;
     poison = true;
     nops = 15 + (int)sw.below(thorough ? 106 : 56);
     maxlen = sw.chance(1, 2) ? 30 : 12;
     nsubjects = 2 + (int)sw.below(3);
     mix = {{"new", 12}, {"compile", 22}, {"take", 6}, {"run", 8}, {"runc", 4}, {"freep", 8}, {"freec", 6},
-           {"reset", 4}, {"debug", 6}, {"subject", 22}, {"rawalloc", 4}};
+           {"reset", 4}, {"debug", 6}, {"subject", 22}, {"rawalloc", faults ? 12 : 4}, {"policy", faults ? 5 : 0}};
   }
   if (orc_code.find("debug") != std::string::npos) {
     // frees are documented no-ops in debug mode: no reuse/growth statements apply
@@ -241,7 +241,9 @@ static std::vector<std::string> hist_gen(const GenArgs &ga) {
     pl.push_back(strf("op runc c=0 mode=%s n=0 ds=%llu", ga.index % 3 ? "direct" : "exec", (unsigned long long)(dr.next() >> 20)));
   } else {
     std::string l = "init";
-    if (faults && fr.chance(1, 2)) {
+    // (C17: never at init -- a failed init probe switches JIT off for the whole process by design, which is
+    // a different configuration from the zero-history reference, not a different history)
+    if (faults && P != "C17" && fr.chance(1, 2)) {
       int nf = 1 + (int)fr.below(2);
       for (int i = 0; i < nf; i++) l += " " + gen_fault(fr, 5);
     }
@@ -301,6 +303,10 @@ static std::vector<std::string> hist_gen(const GenArgs &ga) {
         int nf = 1 + (int)fr.below(2);
         for (int k = 0; k < nf; k++) l += " " + gen_fault(fr, 5);
       }
+    } else if (op == "append") {
+      // the program is edited after it was built (and possibly compiled): a valid extra instruction, or one
+      // whose operand sizes do not match (the next compile must then fail fatally and leave nothing behind)
+      l += strf(" p=%d kind=%s", (int)pr.below(1000), pr.chance(1, 2) ? "good" : "bad");
     } else if (op == "take" || op == "reset" || op == "freep") {
       l += strf(" p=%d", (int)pr.below(1000));
     } else if (op == "freec") {
@@ -318,11 +324,16 @@ static std::vector<std::string> hist_gen(const GenArgs &ga) {
     } else if (op == "policy") {
       static const char *d[] = {"xdg", "home", "tmpdir", "tmp", "execmem"};
       const char *dd = d[fr.below(5)];
-      if (!strcmp(dd, "execmem")) l += strf(" dir=execmem to=%d", (int)fr.below(2));
+      // windows in which executable memory cannot be had at all (every directory noexec, anonymous
+      // executable mappings denied), and their end
+      if (fr.chance(2, 5)) l += strf(" dir=all to=%s", fr.chance(1, 2) ? "denied" : "ok");
+      else if (!strcmp(dd, "execmem")) l += strf(" dir=execmem to=%d", (int)fr.below(2));
       else l += strf(" dir=%s to=%s", dd, dir_policy(fr, 60).c_str());
     } else if (op == "rawalloc") {
       static const int sz[] = {1, 15, 16, 17, 100, 1000, 4096, 5000, 16384, 20000, 32768, 40000, 65520, 65535, 65536};
-      l += strf(" size=%d fill=%llu", sz[pr.below(15)], (unsigned long long)(dr.next() >> 40));
+      // C16: large blocks, so that a few live objects span several regions in every cycle
+      bool big = P == "C16" || (P == "C17" && faults);
+      l += strf(" size=%d fill=%llu", big ? sz[8 + pr.below(7)] : sz[pr.below(15)], (unsigned long long)(dr.next() >> 40));
     } else if (op == "subject") {
       int s = subj_seen < nsubjects ? subj_seen++ : (int)pr.below(nsubjects ? nsubjects : 1);
       l += strf(" s=%d ds=%llu", s, (unsigned long long)(dr.next() >> 20));
@@ -364,6 +375,8 @@ struct Prog {
   Func fn;
   std::string target;
   int id = 0;
+  bool broken = false;   // an instruction with mismatching sizes was appended
+  int appended = 0;
 };
 struct CodeObj {
   OrcCode *c = nullptr;
@@ -625,6 +638,10 @@ static void do_run(State &st, Prog *pp, CodeObj *co, const std::string &mode_s, 
     // repeated runs of the same code on the same inputs give the same outputs
     RunData again;
     make_inputs(meta, ds, n, again);
+    // ... whatever state the executor structure was in before (fresh and zeroed, or holding the leftovers of
+    // earlier calls, as the uninitialised executors of generated wrappers do)
+    again.exstyle = 1 - again.exstyle;
+    again.exgarbage = mix2(again.exgarbage, 0x5ca1ab1e);
     g_cur_slot = slot;
     run_with(pp ? pp->p : nullptr, pp ? nullptr : co->c, meta, mode, again);
     g_cur_slot = -1;
@@ -876,6 +893,29 @@ static void hist_run(const std::vector<std::string> &plan, Child &c) {
         if (!ok && !fatal && (os.fired || os.policy_failures)) c.count("probe.fallback_after_codemem_failure");
         if (ok && st.jit_forced_off && st.O("class"))
           c.violation("classification", "jit-after-failed-probe", "native code was produced although the init probe had failed");
+      } else if (op == "append") {
+        if (st.progs.empty()) { c.event("  skip"); continue; }
+        Prog &p = st.progs[kvi(w, "p") % st.progs.size()];
+        int dsize = p.meta.vars[ORC_VAR_D1].size;
+        if (dsize == 0 || p.p->n_insns > 40 || p.broken) { c.event("  skip"); continue; }
+        if (kv(w, "kind", "good") == "good") {
+          // d1 = copy d1: the value is unchanged, the program (and its twin) have one more instruction
+          const char *cp = dsize == 1 ? "copyb" : dsize == 2 ? "copyw" : dsize == 4 ? "copyl" : "copyq";
+          orc_program_append_2(p.p, cp, 0, ORC_VAR_D1, ORC_VAR_D1, 0, 0);
+          // the twin is shared with code objects taken earlier: those keep the old reference
+          ProgMeta tm;
+          OrcProgram *t2 = build_program(p.meta.spec, p.meta.name + "_twin", &tm);
+          for (int k = tm.n_insns; k < p.p->n_insns; k++) orc_program_append_2(t2, cp, 0, ORC_VAR_D1, ORC_VAR_D1, 0, 0);
+          orc_program_compile_full(t2, nullptr, 0);
+          p.twin = std::make_shared<Twin>(t2);
+          p.appended++;
+          c.count("op.append_good");
+        } else {
+          orc_program_append_2(p.p, dsize == 4 ? "addw" : "addl", 0, ORC_VAR_D1, ORC_VAR_D1, ORC_VAR_D1, 0);
+          p.broken = true;   // every later compile must be refused as fatal
+          c.count("op.append_bad");
+        }
+        // the code compiled earlier (if any) is still what runs until the next compile
       } else if (op == "take") {
         if (st.progs.empty()) { c.event("  skip"); continue; }
         Prog &p = st.progs[kvi(w, "p") % st.progs.size()];
@@ -933,7 +973,15 @@ static void hist_run(const std::vector<std::string> &plan, Child &c) {
         orc_debug_set_level((int)kvi(w, "level"));
       } else if (op == "policy") {
         std::string d = kv(w, "dir");
-        if (d == "execmem") fs::set_execmem(kvi(w, "to", 1));
+        if (d == "all") {
+          bool ok = kv(w, "to", "ok") == "ok";
+          for (auto dn2 : {"xdg", "home", "tmpdir"})
+            if (getenv(!strcmp(dn2, "xdg") ? "XDG_RUNTIME_DIR" : !strcmp(dn2, "home") ? "HOME" : "TMPDIR"))
+              fs::set_dir(dir_path(dn2), ok ? fs::P_OK : fs::P_NOEXEC);
+          fs::set_dir("/tmp", ok ? fs::P_OK : fs::P_NOEXEC);
+          fs::set_execmem(ok);
+          c.count(ok ? "probe.jit_possible_again_window" : "probe.jit_impossible_window");
+        } else if (d == "execmem") fs::set_execmem(kvi(w, "to", 1));
         else if (getenv(d == "xdg" ? "XDG_RUNTIME_DIR" : d == "home" ? "HOME" : d == "tmpdir" ? "TMPDIR" : "PATH"))
           fs::set_dir(dir_path(d), fs::policy_from_name(kv(w, "to", "ok")));
       } else if (op == "rawalloc") {
@@ -983,7 +1031,12 @@ static void hist_run(const std::vector<std::string> &plan, Child &c) {
         OrcProgram *p = build_program(s.spec, strf("subj%zu", si), &meta);
         OrcTarget *t = target_by_name(s.target);
         unsigned flags = t ? (orc_target_get_default_flags(t) & s.fmask) : 0;
+        fs::begin_op({});
         int res = orc_program_compile_full(p, t, flags);
+        fs::OpStats sos = fs::end_op();
+        // the only relaxation: a subject compile that itself met a refusal of code memory (directory
+        // policy) may decline to JIT; what happened to *other* compiles earlier must not matter
+        bool own_codemem_failure = sos.policy_failures > 0 || sos.fired > 0;
         OrcCode *code = p->orccode;
         uint64_t ch = code && code->chunk ? fnv(code->code, code->code_size) : 0;
         const char *asmc = orc_program_get_asm_code(p);
@@ -996,7 +1049,9 @@ static void hist_run(const std::vector<std::string> &plan, Child &c) {
         s.compiles++;
         c.count("subject.compiles");
         c.state(mix2(mix2(si, r), off));
-        if (st.O("det")) {
+        if (st.O("det") && own_codemem_failure && !ORC_COMPILE_RESULT_IS_SUCCESSFUL(res)) {
+          c.count("probe.subject_compile_itself_refused_code_memory");
+        } else if (st.O("det")) {
           std::string what;
           if (res != s.result) what = strf("compile result %#x vs %#x in a fresh process", res, s.result);
           else if (cs != s.code_size) what = strf("code size %d vs %d in a fresh process", cs, s.code_size);
@@ -1008,18 +1063,24 @@ static void hist_run(const std::vector<std::string> &plan, Child &c) {
                              si, s.spec.c_str(), meta.opnames.c_str(), s.target.c_str(), s.fmask, s.compiles, oi, orc_debug_get_level(), r, off, what.c_str()));
           // recompiling after a reset gives identical bytes
           orc_program_reset(p);
+          fs::begin_op({});
           int res2 = orc_program_compile_full(p, t, flags);
+          fs::OpStats sos2 = fs::end_op();
+          bool own_failure2 = (sos2.policy_failures > 0 || sos2.fired > 0) && !ORC_COMPILE_RESULT_IS_SUCCESSFUL(res2);
           OrcCode *code2 = p->orccode;
           uint64_t ch2 = code2 && code2->chunk ? fnv(code2->code, code2->code_size) : 0;
           const char *asm2 = orc_program_get_asm_code(p);
           uint64_t ah2 = asm2 ? fnv(asm2, strlen(asm2)) : 0;
-          if (res2 != res || ch2 != ch || ah2 != ah)
+          if (own_failure2) c.count("probe.subject_compile_itself_refused_code_memory");
+          else if (res2 != res || ch2 != ch || ah2 != ah)
             c.violation("determinism", "recompile-after-reset-differs", strf("subject %zu: recompiling after orc_program_reset changed result/code/listing (%#x/%#x)", si, res, res2));
           // native subjects also run, twice, on the same inputs
           if (ORC_COMPILE_RESULT_IS_SUCCESSFUL(res2) && t && t->executable && !meta.unsafe_run) {
             RunData a, b;
             make_inputs(meta, kvu(w, "ds"), 0, a);
             make_inputs(meta, kvu(w, "ds"), 0, b);
+            b.exstyle = 1 - a.exstyle;   // same code, same inputs, executor structure in a different prior state
+            b.exgarbage = mix2(a.exgarbage, 0x5ca1ab1e);
             run_with(p, nullptr, meta, RUN_EXEC, a);
             run_with(p, nullptr, meta, RUN_EXEC, b);
             uint64_t ha = hash_outputs(meta, a), hb = hash_outputs(meta, b);
